@@ -883,7 +883,7 @@ open PM PM.RoundTrip PM.FromDom in
     holds again, with the text appended to the content of `cx` -/
 theorem roundtrip_text_partial (P : DomWalk.Parser) (w : DomWalk.WState) (base : List NodeCtx) (cx : NodeCtx) (ext : List NodeCtx)
     (c : List Node) (t : TypeId) (q q' : Nat) (s : List Nat) (prev : Option (Node × String)) (ptag : Option String) (prevBr : Bool)
-    (hi : Inv P.S w base cx ext c) (hp : Plain cx t q) (hinl : (P.S.nodeType t).inlineContent = true)
+    (hi : Inv P.S w base cx ext c) (hp : Plain P.S cx t q) (hinl : (P.S.nodeType t).inlineContent = true)
     (hok : textOk cx.opts prev s = true)
     (hdrop : cx.opts.preserveWs = false → startsWithSpace s = true → ext = [] → dropsLead cx prevBr = false)
     (hm : (P.S.dfa t).matchType q P.S.textTy = some q') :
@@ -897,7 +897,7 @@ open PM PM.RoundTrip PM.FromDom in
     state is appended to that context (after the finished contexts above it have been closed into it) -/
 theorem roundtrip_insert_partial (S : Schema) (wsPre : TypeId → Bool) (st : PState) (base : List NodeCtx) (cx : NodeCtx)
     (ext : List NodeCtx) (c : List Node) (t : TypeId) (q q' : Nat) (node : Node)
-    (hn : st.nodes = base ++ cx :: ext) (ho : st.open_ = base.length) (hp : Plain cx t q) (hs : Settles S cx ext c)
+    (hn : st.nodes = base ++ cx :: ext) (ho : st.open_ = base.length) (hp : Plain S cx t q) (hs : Settles S cx ext c)
     (hm : (S.dfa t).matchType q (S.tyOf node) = some q') (hmk : node.marks = []) :
     st.insertNode S wsPre node =
       .ok ({ st with nodes := base ++ [{ cx with content := c ++ [node], mtch := some q' }] }, true) :=
@@ -908,13 +908,14 @@ open PM PM.RoundTrip PM.FromDom in
     solid context with the whitespace mode `ws_options_for` gives -/
 theorem roundtrip_enter_partial (S : Schema) (wsPre : TypeId → Bool) (st : PState) (base : List NodeCtx) (cx : NodeCtx)
     (ext : List NodeCtx) (c : List Node) (t : TypeId) (q q' : Nat) (ty : TypeId) (attrs : Option Attrs) (pw : WS) (a : Attrs)
-    (hn : st.nodes = base ++ cx :: ext) (ho : st.open_ = base.length) (hp : Plain cx t q) (hs : Settles S cx ext c)
+    (hn : st.nodes = base ++ cx :: ext) (ho : st.open_ = base.length) (hp : Plain S cx t q) (hpe : cx.pending = [])
+    (hs : Settles S cx ext c)
     (hm : (S.dfa t).matchType q ty = some q') (ha : computeAttrs (S.nodeType ty).attrs (attrs.getD []) = .ok a) :
     st.enter S wsPre ty attrs pw =
       .ok ({ st with nodes := base ++ [{ cx with content := c, mtch := some q' },
                                        { NodeCtx.new (some ty) attrs [] [] true (wsOptionsFor (wsPre ty) pw cx.opts) with uid := st.fresh }],
                      open_ := base.length + 1, fresh := st.fresh + 1 }, true) :=
-  enter_plain S wsPre st base cx ext c t q q' ty attrs pw a hn ho hp hs hm ha
+  enter_plain S wsPre st base cx ext c t q q' ty attrs pw a hn ho hp hpe hs hm ha
 
 open PM PM.RoundTrip PM.FromDom in
 /-- **an element read back as a node opens directly**: `add_element_by_rule` for a rule naming the non-leaf type `tc` that
@@ -922,14 +923,15 @@ open PM PM.RoundTrip PM.FromDom in
     deeper with a fresh context that has nothing pending, and remembers that context's identity for `sync` -/
 theorem roundtrip_open_partial (P : DomWalk.Parser) (w : DomWalk.WState) (base : List NodeCtx) (cx : NodeCtx) (ext : List NodeCtx)
     (c : List Node) (t : TypeId) (q q' : Nat) (tc : TypeId) (ra : Option Attrs) (a : Attrs) (tag : String) (r : DomWalk.TagRule)
-    (hi : Inv P.S w base cx ext c) (hp : Plain cx t q) (hr : r.node = some (some tc)) (hnl : (P.S.nodeType tc).isLeaf = false)
+    (hi : Inv P.S w base cx ext c) (hp : Plain P.S cx t q) (hpe : cx.pending = []) (hr : r.node = some (some tc))
+    (hnl : (P.S.nodeType tc).isLeaf = false)
     (hm : (P.S.dfa t).matchType q tc = some q') (ha : computeAttrs (P.S.nodeType tc).attrs (ra.getD []) = .ok a) :
     ∃ w1, DomWalk.ruleOpen P w tag r ra = .ok (w1, ⟨true, none, false, w.st.fresh⟩) ∧
       Inv P.S w1 (base ++ [{ cx with content := c, mtch := some q' }]) (newCtx P tc ra r.preserveWs cx.opts w.st.fresh) [] [] ∧
-      Plain (newCtx P tc ra r.preserveWs cx.opts w.st.fresh) tc 0 :=
-  ⟨_, ruleOpen_node P w base cx ext c t q q' tc ra a tag r hi hp hr hnl hm ha,
+      Plain P.S (newCtx P tc ra r.preserveWs cx.opts w.st.fresh) tc 0 :=
+  ⟨_, ruleOpen_node P w base cx ext c t q q' tc ra a tag r hi hp hpe hr hnl hm ha,
     (afterEnter_inv P w base cx ext c q' tc ra r.preserveWs (.enter tc ra r.preserveWs) hi).1,
-    (afterEnter_inv P w base cx ext c q' tc ra r.preserveWs (.enter tc ra r.preserveWs) hi).2⟩
+    (afterEnter_inv P w base cx ext c q' tc ra r.preserveWs (.enter tc ra r.preserveWs) hi).2.1⟩
 
 open PM PM.RoundTrip PM.FromDom in
 /-- **the close of such an element**: `sync(start_in)` finds the node's context by its identity at the open depth, and the
